@@ -496,3 +496,12 @@ RULES = [
     ("C10.R8", "T3", "a static range cut by a full fragment keeps its stop index consistent with the data written (shared with C09.R10)", r8),
     ("C10.R9", "T5", "database getters and updates use the live value (current), never the READ snapshot (selected)", r9),
 ]
+
+
+def r10(ctx):
+    """'values survive outstation -> master': the object bytes are those of the variation the header announces (C09.R15, shared code)."""
+    import c09
+    c09.r15(ctx)
+
+
+RULES.append(("C10.R10", "T4-namesake", "a variation arm writes the object type of its own name (shared with C09.R15)", r10))
